@@ -111,7 +111,7 @@ def caret_obligations(rep):
     fd = repo.find_function(INIT, 'ErrorHandling.error_location')
     loops = [s for s in fd.body if isinstance(s, ast.For)] if fd else []
     if len(loops) != 3:
-        rep.undecided('C19.caret', 'pysym', f'error_location has {len(loops)} top-level loops, the contract is keyed on 3', function=fn)
+        rep.undecided('C19.caret', 'pysym', f'error_location has {len(loops)} top-level loops (the lemmas are stated over its three loops): representation changed, decision rests on the bounded caret oracle', function=fn, soft=True)
         return
     m = repo.import_module(INIT)
     loop1, loop2, loop3 = loops
@@ -333,7 +333,8 @@ def lexerr_obligations(rep):
     for n in ast.walk(fd):
         it = n.iter if isinstance(n, (ast.For, ast.comprehension)) else None
         if it is not None and isinstance(it, ast.Subscript) and isinstance(it.slice, ast.Slice) and isinstance(it.value, ast.Name):
-            sl = it.slice
+            if sl is None or 'error_line' in ast.unparse(it.slice):          # the shown window is the slice positioned by the error line
+                sl = it.slice
     if sl is None:
         rep.undecided('C19.lexerr.slice', 'smt:z3', 'no iteration over a slice `lines[a:b]` in MindsDBLexer.error', function=fn)
         return
